@@ -25,6 +25,7 @@ var (
 	ErrSystem       = errors.New("internal system error")
 	ErrNotAuthrized = errors.New("not authrized")
 	ErrInvalid      = errors.New("invalid")
+	ErrStopped      = errors.New("stopped")
 )
 
 const (
